@@ -45,6 +45,7 @@ func init() {
 			out = append(out, Instance{Scenario: "c08_rollback", Params: mustJSON(RollbackParams{}), Bound: 0, Shards: 8, Note: "a restart answered with a rollback: every event above the checkpointed position is delivered (the first unsettled one is not skipped)"})
 			out = append(out, Instance{Scenario: "c01_finite_end", Params: mustJSON(struct{}{}), Bound: 0, Note: "finite mode: streams end cleanly while acknowledgements are withheld, then save and exit"})
 			out = append(out, Instance{Scenario: "pipe", Params: mustJSON(PipeParams{Mode: "gen", Alphabet: []string{"M", "Mbefore", "Ebefore"}, Depth: 4, Ops: []string{"deliver0", "deliver1", "ackold", "commit"}, SkipUntil: true, CrashEnd: true}), Bound: 0, Shards: 4, Note: "skipUntil configured: events it removes never carry the position past an unacknowledged event"})
+			out = append(out, Instance{Scenario: "c07_gate", Params: mustJSON(MitigationParams{Replicas: 1, EpochAssign: true}), Bound: 0, Shards: 8, Note: "rollback mitigation: an event that waits at the gate for longer than a configuration-watch interval is still delivered once covered - it is never dropped, so no later acknowledgement can carry the checkpoint past it"})
 			out = append(out, Instance{Scenario: "c02_twogroups", Params: mustJSON(struct{}{}), Bound: 0, Note: "two consumer groups in one process: the stored checkpoint of a group names a position THAT group's consumer settled"})
 			out = append(out, Instance{Scenario: "reopen_life", Params: mustJSON(LifeParams{Oracle: "position", Segs: 2}), Bound: 0, Shards: 8, Note: "events the server sends again after a transient end / fail-over / rollback while their first copies are still unacknowledged: the position (and the next save) stays at the furthest ACKNOWLEDGED event"})
 			out = append(out, Instance{Scenario: "c01_closewindow", Params: mustJSON(struct{}{}), Bound: 0, Note: "a save inside the close phase of a rebalance / shutdown while the server keeps sending: the stored position never passes a document the consumer was not shown"})
@@ -81,6 +82,7 @@ func init() {
 				{Scenario: "c03_conc", Params: mustJSON(ConcParams{}), Bound: 2, Shards: 8, Note: "three vBuckets on two nodes streaming concurrently, all schedules within the bound"},
 				{Scenario: "c03_conc", Params: mustJSON(ConcParams{Block: true}), Bound: 1, Shards: 4, Note: "consumer blocked inside a delivery of vb0 while the other node keeps delivering"},
 				{Scenario: "pipe", Params: mustJSON(PipeParams{Mode: "script", Layout: "single", Depth: 6, Ops: []string{"deliver0", "deliver1", "ackold", "commit"}, Faults: true}), Bound: 0, Shards: 4, Note: "saves that the store rejects between deliveries: delivery goes on (every later event still reaches the consumer, every later commit returns)"},
+				{Scenario: "c07_gate", Params: mustJSON(MitigationParams{Replicas: 1, EpochAssign: true}), Bound: 0, Shards: 8, Note: "an event that waits at the gate for longer than a configuration-watch interval is delivered once covered (not dropped)"},
 				{Scenario: "c07_gate", Params: mustJSON(MitigationParams{Replicas: 1, Stall: true}), Bound: 0, Shards: 8, Note: "rollback mitigation on (the default): an event that has to wait at the gate is delivered once the copies have persisted it (completeness), also when the DCP thread stalls at any point"},
 				{Scenario: "c03_twosessions", Params: mustJSON(struct{}{}), Bound: 0, Shards: 1, Note: "two complete Dcp sessions in one process with independent collection configurations (and a collection re-created with a new id in between): names and stream filter of each session"},
 				{Scenario: "c03_rebalance", Params: mustJSON(struct{}{}), Bound: 0, Shards: 4, Note: "completeness across a real Rebalance(): backlog arriving before it, while closed, or right after the vBucket re-opened while Open() still waits for another vBucket"},
